@@ -137,3 +137,57 @@ def replay_lines(ctx, rec):
             if sorted(g) != sorted(q["ids"]) or len(set(map(json.dumps, g))) != len(g):
                 return True
     return False
+
+
+# ------------------------------------------------------------------ structured features -> real objects / arguments
+def real_feature(f):
+    import collections
+    from gffutils.feature import Feature
+    attrs = collections.OrderedDict((dec(k), [dec(v) for v in vs]) for k, vs in f["attrs"])
+    return Feature(seqid=dec(f["seqid"]), source=dec(f["source"]), featuretype=dec(f["ftype"]),
+                   start="." if f["start"] < 0 else f["start"], end="." if f["end"] < 0 else f["end"], score=dec(f["score"]),
+                   strand=dec(f["strand"]), frame=dec(f["frame"]), attributes=dict(attrs), extra=[dec(x) for x in f["extra"]])
+
+
+def _call(fn):
+    if fn == "none":
+        return lambda f: None
+    if fn == "const":
+        return lambda f: "K"
+    if fn == "auto_seqid":
+        return lambda f: "autoincrement:" + f.seqid
+    if fn == "name":
+        return lambda f: f.attributes["Name"][0] if "Name" in f.attributes and f.attributes["Name"] else None
+    if fn == "type_start":
+        return lambda f: "%s:%s" % (f.featuretype, f.start)
+    raise ValueError(fn)
+
+
+def _item(it):
+    if it["t"] == "attr":
+        return dec(it["k"])
+    if it["t"] == "field":
+        return ":%s:" % it["name"]
+    return _call(it["fn"])
+
+
+def real_idspec(spec):
+    """the id_spec argument denoted by the specification's record (string / list / dict / callable forms)"""
+    if spec["kind"] == "dict":
+        return {dec(ft): ([_item(i) for i in items] if len(items) != 1 or items[0]["t"] != "attr" else _item(items[0]))
+                for ft, items in spec["map"]}
+    items = [_item(i) for i in spec["items"]]
+    if len(items) == 1:
+        return items[0]          # string, ':field:' or callable form
+    return items
+
+
+def real_kwargs(cfg, importer_kwargs=True):
+    kw = {"id_spec": real_idspec(cfg["idspec"]), "merge_strategy": cfg["strategy"]}
+    if cfg["fmf"]:
+        kw["force_merge_fields"] = list(cfg["fmf"])
+    if cfg.get("noT"):
+        kw["disable_infer_transcripts"] = True
+    if cfg.get("noG"):
+        kw["disable_infer_genes"] = True
+    return kw
